@@ -336,6 +336,35 @@ impl Check for C13 {
                 }
             }
         }
+        if rng.chance(1, 8) {
+            // the limit is lowered on a running iterator: a valid document, `items` elements read under a generous limit,
+            // then a limit one below the declared size of some later element. From that call on the limit is in force:
+            // the first later element above it is reported with the size error at its offset, whatever is tolerated
+            let mut o = cases::doc_opts_for(tier, &mut rng);
+            o.pay.max_len = 40;
+            o.pay.boundary_pct = 0;
+            o.raw_pct = 0;
+            o.unknown_pct = *rng.pick(&[0u64, 30, 100]);
+            o.max_nodes = *rng.pick(&[4usize, 10, 25]);
+            let doc = gen::gen_doc(&mut rng, &spec, &o);
+            let e = enc::encode(&doc);
+            let n_el = e.layout.elems.len();
+            if n_el >= 2 {
+                let items = rng.range(1, n_el - 1);
+                let later: Vec<usize> = (items..n_el).filter(|i| e.layout.elems[*i].size.map_or(false, |s| s >= 1)).collect();
+                if !later.is_empty() {
+                    let target = *rng.pick(&later);
+                    let limit = e.layout.elems[target].size.unwrap() as usize - 1;
+                    let xi = (items..n_el).find(|i| e.layout.elems[*i].size.map_or(false, |s| s as usize > limit)).unwrap();
+                    let el = e.layout.elems[xi].clone();
+                    let (m, op) = before_split(&e, xi);
+                    let fi = FaultInfo { class: Class::S, off: el.off, id: el.id, size: el.size.unwrap() as usize, parent: el.parent.map(|p| e.layout.elems[p].id), before_mandatory: m, before_optional: op };
+                    let cfg = IterCfg { max_size: if rng.chance(1, 2) { MaxSz::Default } else { MaxSz::Limit(1 << 20) }, capacity: io::gen_capacity(&mut rng, e.bytes.len()), ..Default::default() };
+                    let script = io::gen_rscript(&mut rng, e.bytes.len(), &[]);
+                    return Case { rc: ReadCase { spec, input: Arc::new(e.bytes), cfg, script, driver: Driver::LimitAfter { items, limit }, class: "limit-lowered-mid-stream" }, fault: Some(fi) };
+                }
+            }
+        }
         let mut fs = FaultStats::default();
         let mut doc = cases::doc_opts_for(tier, &mut rng);
         doc.pay.max_len = doc.pay.max_len.min(300);
@@ -402,6 +431,9 @@ impl Check for C13 {
         }
         // single injected fault: the specific kind at the offending element when not tolerated
         if let Some(f) = &c.fault {
+            if matches!(c.rc.driver, Driver::LimitAfter { .. }) {
+                st.inc("probe_limit_lowered_mid_stream");
+            }
             st.inc(match f.class {
                 Class::I => "fault_invalid_id",
                 Class::H => "fault_hierarchy",
@@ -492,7 +524,7 @@ impl Check for C13 {
     }
 
     fn rule(&self) -> &'static str {
-        "One case = specification + bytes + size limit + delivery schedule, parsed under ALL 8 subsets of tolerated error classes. Bytes are either a valid document with exactly one structural fault injected via the layout — (I) id replaced by a well-formed id outside the specification, (H) a leaf inserted under known-size masters that its path does not allow, (O) a child's size inflated past a known-size ancestor, (S) a binary/string element under unknown-size masters declaring more than the limit — or arbitrary byte-faulted / random / header-soup input. Checked: specific error kind and fields at the faulty element after exactly the items before it when the class is not tolerated; no tolerated kind ever reported; no raw tag without InvalidTagIds; strict items a prefix of every tolerant run (inputs starting at a root element). Non-trivial: single-fault case, or at least two strict items. Distinct: FNV-1a fingerprint of bytes + configuration + schedule + fault position."
+        "One case = specification + bytes + size limit + delivery schedule, parsed under ALL 8 subsets of tolerated error classes. Bytes are either a valid document with exactly one structural fault injected via the layout — (I) id replaced by a well-formed id outside the specification, (H) a leaf inserted under known-size masters that its path does not allow, (O) a child's size inflated past a known-size ancestor, (S) a binary/string element under unknown-size masters declaring more than the limit — or arbitrary byte-faulted / random / header-soup input. Checked: specific error kind and fields at the faulty element after exactly the items before it when the class is not tolerated; no tolerated kind ever reported; no raw tag without InvalidTagIds; strict items a prefix of every tolerant run (inputs starting at a root element). One run in eight lowers the limit on a running iterator (valid document, k elements read, then a limit one below a later element's declared size): from that call on the limit is in force, under every tolerance set. Non-trivial: single-fault case, or at least two strict items. Distinct: FNV-1a fingerprint of bytes + configuration + schedule + fault position."
     }
     fn assumptions(&self) -> Vec<&'static str> {
         vec![
@@ -501,6 +533,6 @@ impl Check for C13 {
         ]
     }
     fn expected_probes(&self) -> Vec<&'static str> {
-        vec!["fault_invalid_id", "fault_hierarchy", "fault_oversized_child", "fault_size_above_limit", "prefix_checks", "probe_tolerant_run_went_further"]
+        vec!["fault_invalid_id", "fault_hierarchy", "fault_oversized_child", "fault_size_above_limit", "prefix_checks", "probe_tolerant_run_went_further", "probe_limit_lowered_mid_stream"]
     }
 }
